@@ -49,7 +49,16 @@ func checkLibCase(c LCase) error {
 	if err := specSees(b, v); err != nil {
 		return err
 	}
+	// the bytes belong to the application: it may overwrite them, and the spare capacity behind them
+	ev.Trash(b)
 	if c.Edit == 0 {
+		b, err = a.MarshalBinary()
+		if err != nil {
+			return fmt.Errorf("second marshal: %v", err)
+		}
+		if err := specSees(b, v); err != nil {
+			return fmt.Errorf("second marshal, after the application overwrote the bytes of the first: %v", err)
+		}
 		return nil
 	}
 	what := amf0x.Mutate(a, &v, c.Edit, strictOpen())
@@ -336,6 +345,29 @@ func checkMarker(c MCase) error {
 	if c.Nested {
 		b = append([]byte{3, 0, 1, 'k'}, val...)
 		b = append(b, 0, 0, 9)
+	}
+	if !c.Nested {
+		// whatever value object the library hands out for this marker: the bytes it marshals to belong to the application,
+		// which may overwrite them (and their spare capacity) without changing what the library encodes afterwards
+		ev.Try(func() error {
+			if d, err := amf0.Discovery(val); err == nil {
+				if mb, err := d.MarshalBinary(); err == nil {
+					ev.Trash(mb)
+				}
+			}
+			return nil
+		})
+		probe := amf0ref.Val{K: amf0ref.Object, Props: []amf0ref.Prop{
+			{Key: []byte("a"), Val: amf0ref.Val{K: amf0ref.Null}},
+			{Key: []byte("u"), Val: amf0ref.Val{K: amf0ref.Undefined}},
+			{Key: []byte("e"), Val: amf0ref.Val{K: amf0ref.Ecma, Props: []amf0ref.Prop{{Key: []byte("t"), Val: amf0ref.Val{K: amf0ref.Boolean, Bool: 1}}}, Count: 1}}}}
+		pb, err := amf0x.Build(probe).MarshalBinary()
+		if err != nil {
+			return fmt.Errorf("marshal of {a:null,u:undefined,e:[t:true]} after the bytes marshalled for the marker-%d value were overwritten: %v", c.Marker, err)
+		}
+		if err := specSees(pb, probe); err != nil {
+			return fmt.Errorf("{a:null,u:undefined,e:[t:true]} marshalled after the bytes marshalled for the marker-%d value were overwritten: %v", c.Marker, err)
+		}
 	}
 	rv, n, rerr := amf0ref.Decode(b, amf0ref.Lib)
 	supported := map[int]bool{0: true, 1: true, 2: true, 3: true, 5: true, 6: true, 8: true, 10: true}
